@@ -91,6 +91,29 @@ static void death_cb(void) {
 	write_file(path, replay_doc("SANITIZER", "see-stderr", "sanitizer report").dump());
 }
 
+// ---- busy-loop monitor ------------------------------------------------------------------------------------------------
+// The scheduler decides deadlocks and unbounded waits, but a loop that never reaches a scheduling point (no lock, sleep, callback
+// or instrumented call in its body) cannot be seen from inside the simulation. A monitor thread outside the simulation watches
+// the step counter: when the process has burnt MAX_CPU_S seconds of CPU time (not wall time: machine load does not count) without
+// a single scheduling step, the run is reported as BUSY_LOOP. An ordinary step takes microseconds.
+#include <pthread.h>
+static const double MAX_CPU_S = 12.0;
+static double cpu_now() { struct timespec ts; clock_gettime(CLOCK_PROCESS_CPUTIME_ID, &ts); return (double) ts.tv_sec + (double) ts.tv_nsec * 1e-9; }
+static void *busy_monitor(void *) {
+	uint64_t last_step = (uint64_t) -1; double cpu_at_change = cpu_now();
+	for (;;) {
+		usleep(250000);
+		if (!g_cur || g_in_fail) { last_step = (uint64_t) -1; cpu_at_change = cpu_now(); continue; }
+		uint64_t s = sim::step();
+		if (s != last_step) { last_step = s; cpu_at_change = cpu_now(); continue; }
+		if (cpu_now() - cpu_at_change > MAX_CPU_S) {
+			std::string d = "no scheduling step for " + std::to_string((int) MAX_CPU_S) + " s of CPU time (step " + std::to_string(s) + "): a task loops without reaching any lock, sleep, callback or library call boundary: " + sim::describe_tasks();
+			fail_handler("BUSY_LOOP", sim::current_api(), d.c_str());
+		}
+	}
+	return nullptr;
+}
+
 static double wall() { struct timespec ts; clock_gettime(CLOCK_MONOTONIC, &ts); return (double) ts.tv_sec + (double) ts.tv_nsec * 1e-9; }
 
 struct Acc {
@@ -183,6 +206,7 @@ int main(int argc, char **argv) {
 	}
 	g_outdir = outdir;
 	sim::set_fail_handler(fail_handler);
+	{ pthread_t mt; pthread_create(&mt, nullptr, busy_monitor, nullptr); pthread_detach(mt); }
 	if (__sanitizer_set_death_callback) __sanitizer_set_death_callback(death_cb);
 
 	if (!replay.empty()) {
